@@ -22,10 +22,13 @@ ScopeGate == /\ pc = "start"
 Construct == /\ pc = "gated" /\ pc' = "constructed" /\ inst' = inst + 1 /\ called' = Append(called, "construct")
              /\ UNCHANGED <<kind, m, cfgable, f, t, cfg, applies, result>>
 Configure == /\ pc = "constructed"
-             /\ \E o \in (IF cfgable THEN {"ok", "err"} ELSE {"none"}) :
+             /\ \E o \in (IF cfgable THEN {"ok", "err", "panic"} ELSE {"none"}) :
                   /\ cfg' = o
                   /\ called' = IF cfgable THEN Append(called, "configure") ELSE called
-                  /\ IF o = "err" THEN Finish([st |-> Fatal, why |-> "config"]) ELSE pc' = "configured" /\ UNCHANGED result
+                  /\ CASE o = "err" -> Finish([st |-> Fatal, why |-> "config"])
+                       [] o = "panic" -> IF kind = "cert" THEN Finish([st |-> Fatal, why |-> "panicked"])     \* inside the recover net
+                                         ELSE pc' = "escaped" /\ result' = [st |-> -1, why |-> "escape"]      \* deviation: no net
+                       [] OTHER -> pc' = "configured" /\ UNCHANGED result
              /\ UNCHANGED <<kind, m, cfgable, f, t, applies, inst>>
 CheckApplies == /\ pc = "configured"
                 /\ \E a \in BOOLEAN : /\ applies' = a /\ called' = Append(called, "applies")
@@ -61,7 +64,7 @@ ResultIsOutcome ==                                                              
                     result = Outcome(kind, m, f, cfg, applies, t, b)
 CallsAreCalls == Terminal => called = Calls(kind, m, cfgable, f, cfg, applies, t)
 BoundaryExact ==                                                                                                \* C03 boundary lemmas
-    (pc = "done" /\ InScope(kind, m.source, f) /\ cfg # "err" /\ Has("applies") /\ applies) =>
+    (pc = "done" /\ InScope(kind, m.source, f) /\ cfg \notin {"err", "panic"} /\ Has("applies") /\ applies) =>
         /\ (m.eff # Zero /\ t = m.eff /\ (m.ineff = Zero \/ Lt(t, m.ineff)) => result.why # "window")
         /\ (m.eff # Zero /\ t = PlusSec(m.eff, -1) => result = [st |-> NE, why |-> "window"])
         /\ (m.ineff # Zero /\ t = m.ineff => result = [st |-> NE, why |-> "window"])
